@@ -9,7 +9,7 @@ from .common import LEAN, REPO, write_if_changed
 sys.path.insert(0, str(Path(__file__).resolve().parent.parent))
 
 
-ALL = ("scopemap", "builtin", "envconfig", "checkapi", "skeletons", "alias", "registry", "columnprops", "scriptslots", "inferstats", "decorators")
+ALL = ("scopemap", "builtin", "envconfig", "checkapi", "skeletons", "alias", "registry", "columnprops", "scriptslots", "inferstats", "decorators", "modelrules")
 
 
 def regenerate(which=("scopemap",)) -> dict:
@@ -58,6 +58,9 @@ def regenerate(which=("scopemap",)) -> dict:
     if "decorators" in which:
         from extract import decorator_branches
         write_if_changed(gen / "DecoratorBranches.lean", decorator_branches.render(REPO))
+    if "modelrules" in which:
+        from extract import model_rules
+        write_if_changed(gen / "ModelRules.lean", model_rules.render(REPO))
     if "builtin" in which:
         from extract import builtin_checks
         write_if_changed(gen / "BuiltinChecks.lean", builtin_checks.render(REPO))
